@@ -61,6 +61,27 @@ def run_cli(args, cwd, timeout=60):
     return p.returncode, p.stdout, p.stderr
 
 
+def json_report(out):
+    """the JSON report in the standard output of a `-f json` run: an object with a list under
+    "files" (other top-level keys, and text before or after it, are not this harness's
+    business) -- or None"""
+    cands = [out] + [ln for ln in out.split("\n") if ln.lstrip().startswith("{")]
+    i = out.find("{")
+    if i >= 0:
+        cands.append(out[i:])
+    for c in cands:
+        try:
+            data = json.loads(c)
+        except Exception:
+            try:
+                data, _ = json.JSONDecoder().raw_decode(c.lstrip())
+            except Exception:
+                continue
+        if isinstance(data, dict) and isinstance(data.get("files"), list):
+            return data
+    return None
+
+
 def verdict_lines(out):
     res = []
     for line in ANSI.sub("", out).split("\n"):
@@ -196,7 +217,7 @@ def op_one(task):
 def op_two_headers(task):
     """inc/libft.h with a correct guard and vendor/libft.h whose guard lacks its #define, in one
     run, both orders; and the erroneous one alone"""
-    viol, cases = [], 0
+    viol, cases, unreadable = [], 0, []
     good = HEADER.format(name="libft.h") + "\n#ifndef LIBFT_H\n# define LIBFT_H\n\nint\tft_fa(int c, char **d);\n\n#endif\n"
     bad = HEADER.format(name="libft.h") + "\n#ifndef LIBFT_H\n\nint\tft_fa(int c, char **d);\n\n#endif\n"
     for order in (("inc/libft.h", "vendor/libft.h"), ("vendor/libft.h", "inc/libft.h"), ("vendor/libft.h",)):
@@ -208,10 +229,9 @@ def op_two_headers(task):
                     fh.write(text)
             cases += 1
             rc, out, err = run_cli(["-f", "json"] + list(order), d)
-            try:
-                data = json.loads(out[out.index('{"files"'):])
-            except Exception:
-                viol.append(f"arguments {order}: no JSON report ({err.strip().splitlines()[-1:]})")
+            data = json_report(out)
+            if data is None:
+                unreadable.append(f"arguments {order}: no JSON report ({err.strip().splitlines()[-1:]})")
                 continue
             for f in data["files"]:
                 names = [e["name"] for e in f["errors"]]
@@ -222,7 +242,7 @@ def op_two_headers(task):
                     viol.append(f"arguments {order}: inc/libft.h (correct guard) gets {names}")
         finally:
             shutil.rmtree(d, ignore_errors=True)
-    return {"cases": cases, "violations": viol}
+    return {"cases": cases, "violations": viol, "unreadable": unreadable}
 
 
 def op_fatal_texts(task):
